@@ -38,6 +38,9 @@ def run_units(pid, tier, seed, units, only=None, raising=False):
     for u in units:
         ctx.unit = u
         try:
+            if u.get("kind") == "suite":
+                run_suite_unit(ctx, pid)
+                continue
             mod.run_unit(ctx, u)
         except core.MonitorFired:
             raise
@@ -49,6 +52,35 @@ def run_units(pid, tier, seed, units, only=None, raising=False):
     if hasattr(mod, "teardown"):
         mod.teardown(ctx)
     return ctx
+
+
+def run_suite_unit(ctx, pid):
+    """The repository's own tests as an extra workload for the property's contracts (harness/suite_plugin.py)."""
+    fd, out = tempfile.mkstemp(prefix="verif_suite_", suffix=".json")
+    os.close(fd)
+    e = env.child_env()
+    e.update(VERIF_SUITE_PROP=pid, VERIF_SUITE_OUT=out, VERIF_TIER=ctx.tier, VERIF_SEED=str(ctx.seed),
+             PYTHONPATH=VERIF + os.pathsep + e.get("PYTHONPATH", ""))
+    try:
+        subprocess.run([sys.executable, "-m", "pytest", "-q", "-x" if False else "-q", "-p", "no:cacheprovider", "-p", "harness.suite_plugin",
+                        "--timeout=900", "--continue-on-collection-errors", os.path.join(env.REPO, "test_autoarray")],
+                       cwd=env.REPO, env=e, capture_output=True, timeout=1500)
+        r = json.load(open(out))
+    except Exception as ex:
+        ctx.inconclusive.append("suite replay failed: %r" % ex)
+        return
+    finally:
+        if os.path.exists(out):
+            os.remove(out)
+    for k in ("classes", "monitors", "skipped", "reach"):
+        getattr(ctx, k).update({("suite:" + a if k == "monitors" else a): b for a, b in r[k].items()} if k == "monitors" else r[k])
+    for w in r["witnesses"]:
+        if len(ctx.witnesses) < 200:
+            ctx.witnesses.append(w)
+    ctx.nfired += r["nfired"]
+    for a, b in r.get("fired_by_monitor", {}).items():
+        ctx._per_monitor[a] += b
+    ctx.classes["suite_replay_runs"] += 1
 
 
 def worker_main(args):
